@@ -365,7 +365,7 @@ CHECKS["C20"] = {
         {"re": r"^(panic: .*|fatal error: .*)$", "also": [r"berty\.tech/weshnet/v2\.\(\*WeshOrbitDB\)|berty\.tech/weshnet/v2\.RestoreAccountExport|berty\.tech/weshnet/v2\.restore"], "identity": "restore-crashes-the-process",
          "site_re": r"^berty\.tech/weshnet/v2\.(?:\(\*WeshOrbitDB\)\.)?([A-Za-z]+)"},
     ],
-    "mandatory_labels": {"all": ["round-trip", "round-trip/several-groups", "round-trip/contact-group", "mutant/rejected", "mutant/entry-byte-flip", "mutant/key-duplicated", "mutant/existing-account"]},
+    "mandatory_labels": {"all": ["round-trip", "round-trip/several-groups", "round-trip/contact-group", "transport/split-reads", "mutant/rejected", "mutant/entry-byte-flip", "mutant/key-duplicated", "mutant/existing-account"]},
 }
 
 CHECKS["C08"] = {
@@ -461,7 +461,7 @@ _ADDED6 = {
     "C17": "Marshaler histories also present a peer with a heads message it marshalled itself in the period before its last rotation (accepted during the grace period).",
     "C18": "Round trips also read every frame of a type into the same destination object (the usual receive loop), with frames of length zero after longer ones.",
     "C19": "Odd groups (validly signed invitations with secrets of unusual length) joined and then used by the other requests.",
-    "C20": "An older backup refused into an existing account followed by the current export.",
+    "C20": "An older backup refused into an existing account followed by the current export. The genuine archive reaches the restore through readers that split it arbitrarily (half reads, 4096-byte pieces, single bytes).",
 }
 for _k, _v in _ADDED6.items():
     CHECKS[_k]["level_text"] += " " + _v
